@@ -92,3 +92,7 @@ pub async fn spawn(config: KeysetConfig) -> watch::Receiver<Arc<KeySet>> {
     });
     rx
 }
+
+#[cfg(all(test, pendulum_project_ntpd_rs_verif))]
+#[path = "/verif/harness/ntpd/probe_keyprov.rs"]
+pub(crate) mod verif_probe;
